@@ -66,8 +66,16 @@ def _scaled(T, pi):
     return dict(T6=f(T, 1e6), pi6=f(pi, 1e6), T4=f(T, 1e4), pi4=f(pi, 1e4))
 
 
+TINY = 2.0 ** -40
+
+
 def run_impl(impl, Cf, cap, events):
-    """Run one implementation on float matrix Cf; append events."""
+    """Run one implementation on float matrix Cf; append events.  impl "py@tiny" / "c@tiny": the same counts
+    multiplied by 2^-40 (exact in floating point) -- the estimator is invariant under a common scaling of the
+    counts, so the run is judged against the SAME integer matrix and must agree with the unscaled runs."""
+    Cll = Cf
+    if impl.endswith("@tiny"):
+        Cf = Cf * TINY
     from enspara.msm import builders
     from enspara.msm import libmsm
     events.append({"ev": "start", "impl": impl})
@@ -84,9 +92,9 @@ def run_impl(impl, Cf, cap, events):
     try:
         with warnings.catch_warnings(record=True) as w:
             warnings.simplefilter("always")
-            if impl == "py":
+            if impl.startswith("py"):
                 T, pi = builders._prinz_mle_py(Cf.copy(), **kw)
-            elif impl == "c":
+            elif impl.startswith("c"):
                 T, pi = libmsm._mle_prinz_dense(Cf.copy(), **kw)
             else:
                 raise core.MachineryError(impl)
@@ -102,7 +110,7 @@ def run_impl(impl, Cf, cap, events):
     if s is None:
         events.append({"ev": "raise", "type": "NonFinite", "msg": "nan/inf in output"})
         return None
-    s.update(ev="return", ll4=_ll(Cf, np.asarray(T, dtype=float)))
+    s.update(ev="return", ll4=_ll(Cll, np.asarray(T, dtype=float)))
     events.append(s)
     return T, pi
 
@@ -113,7 +121,8 @@ def record(arg):
     Cint = np.array(Ci, dtype=np.int64)
     Cf = Cint.astype(float) / cs
     ev = []
-    for impl in ("py", "c"):
+    impls = ("py", "c") if cap or (int(Cint.sum()) + len(Ci)) % 3 else ("py", "c", "py@tiny", "c@tiny")
+    for impl in impls:
         run_impl(impl, Cf, cap, ev)
     comp = []
     for X in competitors(Cint):
